@@ -145,6 +145,12 @@ Theorem no_block_no_children_legacy f e kids ex name body next x :
   nodes_with (render_node templates f) (restrict e) None (strip_ws body) None (set_slot None x).
 Proof. intros Hx Hf Hc F. cbn [render_node]. rewrite Hf. cbn [trail_of]. rewrite Hc. cbn [render_comp_with]. rewrite F, Hx. reflexivity. Qed.
 
+(* the legacy call expression {! x } means exactly what @x without a block means, for EVERY callee expression
+   (generated, hand-written, Once/Flush, Join, ...) and in every state - also one whose slot is not empty *)
+Theorem legacy_call_is_blockless_call fuel e kids ex next x :
+  render_node templates fuel e kids (NCallT ex) next x = render_node templates fuel e kids (NCall ex []) next x.
+Proof. destruct fuel as [|f]; reflexivity. Qed.
+
 (* a call WITH a block: the callee's children are exactly that block, closed over the caller's environment and the
    caller's own children; afterwards the slot is empty again, so nothing later can see the block *)
 Theorem block_is_exactly_that_block f e kids ex c ch name body next x :
